@@ -458,6 +458,87 @@ def datagramReceived (env : Env) (dec : Nat → Bytes → Dec) (fuel : Nat) (run
     | .error e => ([], some e)
     | .ok _ => (notify env dec fuel r net src data).1
 
+/-! ### exit sockets: TunnelExitSocket.datagram_received — bytes from anywhere on the Internet arrive here -/
+
+def andE (a : Except Exn Bool) (b : Unit → Except Exn Bool) : Except Exn Bool :=
+  match a with
+  | .error e => .error e
+  | .ok false => .ok false
+  | .ok true => b ()
+
+def orE (a : Except Exn Bool) (b : Unit → Except Exn Bool) : Except Exn Bool :=
+  match a with
+  | .error e => .error e
+  | .ok true => .ok true
+  | .ok false => b ()
+
+/-- `unpack_from(fmt, data, off)` of `w` bytes as one big-endian number; struct.error when the buffer is too short -/
+def readBE (d : Bytes) (off w : Nat) : Except Exn Nat :=
+  if off + w ≤ d.length then .ok (beDec (slice d off (off + w))) else .error .structError
+
+/-- DataChecker.could_be_utp -/
+def couldBeUtp (d : Bytes) : Except Exn Bool :=
+  if d.length < Gen.utpMinLen then .ok false
+  else match readBE d 0 Gen.utpRead with
+    | .error e => .error e
+    | .ok n =>
+      let byte1 := n / 256
+      let byte2 := n % 256
+      .ok (byte1 / 16 ≤ 4 && byte1 % 16 == 1 && byte2 ≤ 3)
+
+/-- one clause `len(data) >= k and 0 <= unpack_from("!I", data, off)[0] <= m` -/
+def trackerClause (d : Bytes) (c : Nat × Nat × Nat) : Except Exn Bool :=
+  andE (.ok (decide (c.1 ≤ d.length))) fun _ =>
+    match readBE d c.2.1 4 with
+    | .error e => .error e
+    | .ok n => .ok (decide (n ≤ c.2.2))
+
+/-- DataChecker.could_be_udp_tracker: the clauses, left to right, with Python's short-circuit `or` -/
+def couldBeTrackerOf (d : Bytes) : List (Nat × Nat × Nat) → Except Exn Bool
+  | [] => .ok false
+  | c :: cs => orE (trackerClause d c) fun _ => couldBeTrackerOf d cs
+
+def couldBeTracker (d : Bytes) : Except Exn Bool := couldBeTrackerOf d Gen.trackerClauses
+
+/-- DataChecker.could_be_dht (slices only) -/
+def couldBeDht (d : Bytes) : Bool :=
+  decide (1 < d.length) && d.take 1 == [100] && (d.drop (d.length - 1)) == [101]
+
+/-- DataChecker.could_be_bt -/
+def couldBeBt (d : Bytes) : Except Exn Bool :=
+  orE (couldBeUtp d) fun _ => orE (couldBeTracker d) fun _ => .ok (couldBeDht d)
+
+/-- DataChecker.could_be_ipv8 (slices only) -/
+def couldBeIpv8 (d : Bytes) : Bool :=
+  decide (Gen.ipv8MinLen ≤ d.length) && d.take 1 == [0] && (slice d 1 2 == [1] || slice d 1 2 == [2])
+
+structure ExitCfg where
+  exitBT : Bool          -- PEER_FLAG_EXIT_BT in settings.peer_flags
+  exitIPv8 : Bool        -- PEER_FLAG_EXIT_IPV8 in settings.peer_flags
+  pfx : Bytes            -- the tunnel overlay's own prefix
+deriving Repr, Inhabited
+
+/-- TunnelExitSocket.is_allowed -/
+def isAllowed (cfg : ExitCfg) (d : Bytes) : Except Exn Bool :=
+  match couldBeBt d with
+  | .error e => .error e
+  | .ok bt =>
+    let v8 := couldBeIpv8 d
+    .ok (!(!(bt && cfg.exitBT) && !(v8 && cfg.exitIPv8) && !(v8 && cfg.pfx == d.take 22)))
+
+inductive ExitOutcome where
+  | tunneled      -- tunnel_data called (data goes back into the circuit)
+  | dropped
+deriving Repr, DecidableEq, Inhabited
+
+/-- TunnelExitSocket.datagram_received: `is_allowed` runs outside the try, `tunnel_data` inside `try/except Exception`
+    (both shapes read from the source); `tunnelRaises`: whatever sending back into the circuit does -/
+def exitDatagramReceived (cfg : ExitCfg) (tunnelRaises : Bool) (d : Bytes) : Except Exn ExitOutcome :=
+  match isAllowed cfg d with
+  | .error e => if Gen.exitAllowedProtected then .ok .dropped else .error e
+  | .ok false => .ok .dropped
+  | .ok true => if tunnelRaises && !Gen.exitTunnelProtected then .error .handler else .ok .tunneled
+
 /-! ### Network.load_snapshot -/
 
 /-- the loop of load_snapshot.  `fuel` bounds the iterations only to make the definition structural
